@@ -732,7 +732,11 @@ class SymBytes:
         r = self.__eq__(o)
         return (not r) if isinstance(r, bool) else ~r
 
-    __hash__ = None
+    def __hash__(self):
+        # bytes are hashable (a memo keyed by the bytes of a buffer is ordinary python); hashing pins every byte
+        if self.mutable:
+            raise TypeError("unhashable type: 'bytearray'")
+        return hash(bytes(self.concrete()))
 
     def __contains__(self, v):
         for x in self.c:
